@@ -179,6 +179,23 @@ def expl_configs(tier):
         c["cum"] = (i % 2 == 1)
         c["nominmax"] = (i % 3 == 1)
         c["nosum"] = (i % 3 == 2)
+        # the route by which the (increasing) list reaches the stream rotates like the flags; the instrument's advisory
+        # boundaries carry neither NoMinMax nor another instrument kind, and an empty hint is no hint
+        c["cbounds"] = list(c["bounds"])
+        c["routes"] = [("viewfunc", "selector", "view", "advisory", "viewfunc", "selector")[i]]
+        assert c["routes"] != ["advisory"] or (c["bounds"] and not c["nominmax"] and not c["nosum"])
+    # boundary LISTS as an input class (HistModel!ListClass): the list as configured is reversed / shuffled with a
+    # duplicate / swapped, and reaches the aggregator unvalidated (hand-written view function); one increasing list by
+    # every route in a single exploration (the route is state: Histogram!Configure)
+    def lst(name, cbounds, routes, reps, **flags):
+        nd = len(set(cbounds))
+        return dict(dict(name=name, bounds=[2 * j for j in range(1, nd + 1)], cbounds=cbounds, ranks=list(range(1, 2 * nd + 2)),
+                         routes=routes, reps=reps, steps=4 if tier == "thorough" else 3, cum=False, nominmax=False, nosum=False), **flags)
+    th = tier == "thorough"
+    out.append(lst("rev3", [6, 4, 2], ["viewfunc"], [0, 1, 2, 3, 4, 5, 6] if th else [0, 3, 5]))
+    out.append(lst("shufdup", [4, 6, 2, 4], ["viewfunc"], [0, 1, 2, 3, 4, 5, 6] if th else [1, 4, 6], cum=True, nominmax=True))
+    out.append(lst("swapped", [4, 2], ["viewfunc"], [0, 2, 3, 5] if th else [2, 0], nosum=True))
+    out.append(lst("allroutes", [2, 4], ["view", "viewfunc", "selector", "advisory"], [0, 3, 5, 6] if th else [0, 5], cum=True))
     return out
 
 
@@ -197,6 +214,14 @@ def scenario_of(lines, line_no):
     return scen
 
 
+def cfg_class(cfg):
+    """which documented parameter range an exponential configuration leaves (classification only)"""
+    if cfg.get("kind") != "expo":
+        return ""
+    return "+".join(([] if cfg.get("maxsize", 1) > 0 else ["maxsize<=0"]) + ([] if cfg.get("maxscale", 0) <= 20 else ["maxscale>20"])
+                    + ([] if cfg.get("maxscale", 0) >= -10 else ["maxscale<-10"])) or "in-range"
+
+
 def report_viols(ctx, viols, trace_path, direction, src=None, worlds=None):
     lines = None
     n = 0
@@ -210,7 +235,10 @@ def report_viols(ctx, viols, trace_path, direction, src=None, worlds=None):
         sig = {"dir": direction, "sub": v.get("kind"), "why": why, "dest": v.get("dest", ""),
                "underflow": v.get("dropped", 0) > 0,
                "excess_equals_dropped": v.get("excess", 0) == v.get("dropped", 0),
-               "maxscale_below_min": cfg.get("kind") == "expo" and cfg.get("maxscale", 0) < -10}
+               "maxscale_below_min": cfg.get("kind") == "expo" and cfg.get("maxscale", 0) < -10,
+               # the route by which the aggregation reached the stream, the class of the boundary list as configured
+               # (Trace_Hist: HistModel!ListClass), the documented parameter range an exponential configuration leaves
+               "route": v.get("route", "view"), "list": v.get("list", ""), "cfgclass": cfg_class(cfg)}
         if worlds is not None and "world" in new:
             src = {"world": worlds[new["world"]], "pair": new.get("pair")}
         if ctx.violation(sig, replay={"scenario": scen, "viol": v, "src": src or new.get("src"),
@@ -259,7 +287,7 @@ def run(ctx):
                  "CUMULATIVE": "TRUE" if c["cum"] else "FALSE", "FIXD1": "FALSE" if d1 else "TRUE", "MAXSTEPS": c["steps"],
                  "NOSUM": tla_bool(c["nosum"]), "NOMINMAX": tla_bool(c["nominmax"]), "VARIANT": "code"}
             r = ctx.tlc(S, "MC_ExpoHistogram", "MC_ExpoHistogram.cfg", defines=d, want_edges=True, name=name, timeout=3000,
-                        coverage=True, count=False)
+                        coverage=True, count=False, heap="3g")
             reps = [0, 1] if thorough else [ctx.seed % 2]
             if c["maxscale"] <= 0:
                 reps = reps + [2]
@@ -267,16 +295,17 @@ def run(ctx):
                     "nosum": c["nosum"], "nominmax": c["nominmax"]}
             hvals = vals
         else:
-            nb = len(c["bounds"])
+            nb = len(c["bounds"])       # distinct boundaries (ranks 2, 4, ..); c["cbounds"] = the list as configured
             vals = [{"r": r_, "p": r_, "k": r_ - (nb + 1)} for r_ in c["ranks"]]
             name = "expl-%s-%s%s%s" % (c["name"], "cum" if c["cum"] else "delta", "-nomm" if c["nominmax"] else "",
                                        "-nosum" if c["nosum"] else "")
-            d = {"BOUNDS": "<<" + ", ".join(str(b) for b in c["bounds"]) + ">>", "VALS": tla_vals(vals, ("r", "p", "k")),
+            d = {"CBOUNDS": "<<" + ", ".join(str(b) for b in c["cbounds"]) + ">>", "LISTVARIANT": "code",
+                 "ROUTESET": "{" + ", ".join('"%s"' % r_ for r_ in c["routes"]) + "}", "VALS": tla_vals(vals, ("r", "p", "k")),
                  "CUMULATIVE": "TRUE" if c["cum"] else "FALSE", "MAXSTEPS": c["steps"],
                  "NOSUM": tla_bool(c["nosum"]), "NOMINMAX": tla_bool(c["nominmax"]), "VARIANT": "code"}
-            r = ctx.tlc(S, "MC_Histogram", "MC_Histogram.cfg", defines=d, want_edges=True, name=name, timeout=3000, count=False)
+            r = ctx.tlc(S, "MC_Histogram", "MC_Histogram.cfg", defines=d, want_edges=True, name=name, timeout=3000, count=False, heap="2g")
             reps = c["reps"]
-            cfgb = {"kind": "expl", "maxsize": 1, "maxscale": 0, "cum": c["cum"], "bounds": c["bounds"],
+            cfgb = {"kind": "expl", "maxsize": 1, "maxscale": 0, "cum": c["cum"], "bounds": c["bounds"], "cbounds": c["cbounds"],
                     "nosum": c["nosum"], "nominmax": c["nominmax"]}
             hvals = [{"r": v["r"], "k": v["k"]} for v in vals]
         for rep in reps:
@@ -343,7 +372,8 @@ def run(ctx):
     ed = {"VALS": tla_vals(evals, ("sg", "b", "alt", "r", "k")), "MAXSIZE": 2, "MAXSCALE": 0, "CUMULATIVE": "FALSE", "FIXD1": "TRUE",
           "MAXSTEPS": 2}
     hvals = [{"r": r_, "p": r_, "k": r_ - 3} for r_ in range(1, 6)]
-    hd = {"BOUNDS": "<<2, 4>>", "VALS": tla_vals(hvals, ("r", "p", "k")), "CUMULATIVE": "TRUE", "MAXSTEPS": 2}
+    hd = {"CBOUNDS": "<<2, 4>>", "ROUTESET": '{"view"}', "LISTVARIANT": "code", "VALS": tla_vals(hvals, ("r", "p", "k")),
+          "CUMULATIVE": "TRUE", "MAXSTEPS": 2}
     faulty = [("MC_Histogram", "MC_HistOutput.cfg", hd, "copy_noreslice", False), ("MC_ExpoHistogram", "MC_ExpoOutput.cfg", ed, "skip_empty_sign", False),
               ("MC_Histogram", "MC_HistOutput.cfg", hd, "keep_unset", True), ("MC_Histogram", "MC_HistOutput.cfg", hd, "lend_cumulative", False),
               ("MC_ExpoHistogram", "MC_ExpoOutput.cfg", ed, "scale_if_buckets", False)]
@@ -355,6 +385,11 @@ def run(ctx):
         if job[0] == "d1":
             return job, ctx.tlc(S, "MC_ExpoHistogram", "MC_ExpoContract.cfg", defines=dict(d, FIXD1="FALSE"), name="nodeviation-D1",
                                 must_pass=False, count=False)
+        if job[0] == "nosort":
+            # a private copy of the list that is not sorted: TLC finds it for every list class that is not increasing
+            return job, ctx.tlc(S, "MC_Histogram", "MC_HistList.cfg", defines=dict(hd, CBOUNDS=job[1], ROUTESET='{"viewfunc"}', LISTVARIANT="nosort",
+                                                                                   VARIANT="code", NOSUM="FALSE", NOMINMAX="FALSE"),
+                                name="faulty-list-nosort-%d" % job[2], must_pass=False, count=False)
         if job[0] == "d1fixed":
             return job, ctx.tlc(S, "MC_ExpoHistogram", "MC_ExpoContract.cfg", defines=dict(d, FIXD1="TRUE"), name="contract-with-fix-D1",
                                 count=False)
@@ -364,11 +399,15 @@ def run(ctx):
 
     found = {}
     with ThreadPoolExecutor(par) as ex:
-        for job, r in ex.map(demo, [("d1",), ("d1fixed",)] + [("faulty",) + f for f in faulty]):
+        for job, r in ex.map(demo, [("d1",), ("d1fixed",), ("nosort", "<<4, 2>>", 0), ("nosort", "<<2, 4, 2>>", 1)] + [("faulty",) + f for f in faulty]):
             if job[0] == "d1":
                 ctx.extra["tlc_finds_D1_on_the_model"] = r["violated"]
                 if r["violated"] != "ContractInv":
                     ctx.note_inconclusive("NoDeviation run did not reproduce D1 on the model (got %r): %s" % (r["violated"], r["out"]))
+            elif job[0] == "nosort":
+                found["nosort%s/expl" % job[1]] = r["violated"]
+                if r["violated"] != "ListInv":
+                    ctx.note_inconclusive("TLC did not find the unsorted private copy on the model for the list %s (got %r): %s" % (job[1], r["violated"], r["out"]))
             elif job[0] == "faulty":
                 variant = job[4] + ("/expo" if "Expo" in job[1] else "/expl")
                 found[variant] = r["violated"]
@@ -402,6 +441,8 @@ def run(ctx):
         vjobs.append({"kind": "worlds", "bt": bt})
     n = 12000 if thorough else 1500
     vjobs.append({"kind": "random"})
+    nroutes = 4000 if thorough else 600
+    vjobs.append({"kind": "routes"})
 
     def judge(j):
         if j["kind"] == "worlds":
@@ -410,6 +451,13 @@ def run(ctx):
             resf = os.path.join(ctx.work, "worlds-%d.json" % j["bt"])
             if run_capped(ctx, [binp, "worlds", "-n", str(nw), "-batch", str(j["bt"]), "-trace", j["path"], "-res", resf, "-worlds",
                                 j["desc"]], "worlds-%d" % j["bt"], "worlds") is None:
+                j["dead"] = True
+                return j
+            j["res"] = json.load(open(resf))
+        elif j["kind"] == "routes":
+            j["path"] = os.path.join(ctx.work, "routes.ndjson")
+            resf = os.path.join(ctx.work, "routes.json")
+            if run_capped(ctx, [binp, "routes", "-n", str(nroutes), "-trace", j["path"], "-res", resf], "routes", "routes") is None:
                 j["dead"] = True
                 return j
             j["res"] = json.load(open(resf))
@@ -450,6 +498,18 @@ def run(ctx):
             merge_counters(ctx, res, "")
             if j["viols"]:
                 report_viols(ctx, j["viols"], j["path"], "worlds", worlds=json.load(open(j["desc"])))
+        elif j["kind"] == "routes":
+            for m in res["mismatches"]:
+                case = m.get("case") or {}
+                ctx.violation({"dir": "routes", "sub": case.get("sub"), "why": "panic", "route": case.get("route", ""),
+                               "list": case.get("list", ""), "cfgclass": cfg_class(case.get("cfg") or {})}, replay=m)
+            ctx.traces_validated += nroutes
+            ctx.evaluations += res["executed"]
+            merge_counters(ctx, res, "routes_")
+            ctx.extra["route_scenarios"] = nroutes
+            ctx.extra["route_trace_lines_validated"] = j["accepted"]
+            ctx.add_samples(res["samples"][:1], cap=6)
+            report_viols(ctx, j["viols"], j["path"], "routes")
         else:
             for m in res["mismatches"]:
                 ctx.violation({"dir": "random", "sub": (m.get("case") or {}).get("sub"), "why": "panic"}, replay=m)
@@ -479,7 +539,16 @@ def run(ctx):
                  "world_slot_other-num", "world_slot_same-kind-new-point", "world_slot_same-shape", "world_collects_reused",
                  "world_collects_reused-other-reader", "world_collects_fresh", "world_pool_destination_reused",
                  "world_points_expl_cum", "world_points_expl_delta", "world_points_expo_cum", "world_points_expo_delta",
-                 "world_points_nominmax", "world_points_nosum", "world_alias_checks"):
+                 "world_points_nominmax", "world_points_nosum", "world_alias_checks",
+                 # boundary lists and routes: every route replayed, every list class and every route in the seeded scenarios,
+                 # points from unordered lists, fallbacks of the validating routes, out-of-range exponential parameters
+                 "replay_route_view", "replay_route_viewfunc", "replay_route_selector", "replay_route_advisory",
+                 "routes_list_class_reversed", "routes_list_class_shuffled", "routes_list_class_rotated", "routes_list_class_duplicates",
+                 "routes_list_class_duplicates-unordered", "routes_list_class_increasing", "routes_list_route_view",
+                 "routes_list_route_viewfunc", "routes_list_route_selector", "routes_list_route_advisory",
+                 "routes_list_points_from_unordered_list", "routes_list_points_with_fallback_boundaries",
+                 "routes_xexpo_in-range", "routes_xexpo_maxscale>20", "routes_xexpo_maxscale<-10", "routes_xexpo_maxsize<=0",
+                 "routes_xexpo_points_refused"):
         if not cnt.get(need):
             ctx.note_inconclusive("vacuity: regime %s never reached" % need)
     ctx.assumptions += [
